@@ -396,6 +396,42 @@ def corner_specs():
     return out
 
 
+def scale_specs(tier):
+    """grammar-built scenarios whose SIZE crosses thresholds that small scenarios cannot (host ids >= 10, subnet ids
+    >= 8, more than 8 links on one subnet, > 8 / > 10 hosts, public subnets that are not a prefix of the host order);
+    explored around the reference plan (path-bounded), never as complete graphs"""
+    base = {"shape": "12-3", "topo": "chain", "fw": "allow_all", "hostfw": "deny_other", "sw": "1os2s1p",
+            "exploits": "e0e3", "privescs": "any_root", "prob": "half", "cost": "frac", "values": "pos_neg",
+            "discovery": "frac", "sensitive": "two_subnets", "step_limit": None, "bounds": "default",
+            "host_order": "sorted", "names": "plain"}
+    out = []
+
+    def mk(name, cap, **kw):
+        c = dict(base); c.update(kw)
+        sp = build(c, name=name)
+        sp["_path_only"] = True
+        sp["_path_cap"] = cap
+        # the YAML format cannot express discovery values: keep these in the dict binding unless they are all zero
+        out.append(sp)
+
+    mk("scale-12-3", 14)
+    mk("scale-3-11-2", 14, shape="3-11-2", topo="full", sw="2os2s2p", exploits="e0e1", privescs="two", discovery="zero",
+       host_order="reversed")
+    mk("scale-chain9", 14, shape="1-1-1-1-1-1-1-1-1", topo="chain", sensitive="last", discovery="one", hostfw="none")
+    mk("scale-hub9", 14, shape="1-1-1-1-1-1-1-1-1-1", topo="star", sensitive="three", discovery="one", hostfw="none",
+       fw="split")
+    mk("scale-rev-two-public", 14, shape="2-3-2-3", topo="two_public", host_order="reversed", discovery="zero",
+       fw="second_public_only", sensitive="same_subnet")
+    if tier == "thorough":
+        mk("scale-1-70", 16, shape="1-70", topo="chain", sw="1os1s1p", exploits="e0", hostfw="none", discovery="one",
+           sensitive="last")
+        mk("scale-1-170", 10, shape="1-170", topo="chain", sw="1os1s1p", exploits="e0", hostfw="none", discovery="one",
+           sensitive="last")
+        mk("scale-130", 10, shape="65-65", topo="chain", sw="1os1s1p", exploits="e0", hostfw="none", discovery="zero",
+           sensitive="last")
+    return out
+
+
 def fw_exhaustive_specs():
     """thorough: all 4^4 subsets of {s0,s1} for the four directed rules of the 2-subnet chain"""
     base = {"shape": "1-1", "topo": "chain", "fw": "allow_all", "hostfw": "none", "sw": "1os2s1p",
@@ -460,6 +496,9 @@ def quick_family():
     entries.append(({"name": "medium-gen-s0", "gen": ["medium-gen", 0], "_path_only": True}, "generated"))
     entries.append(({"name": "large-gen-s1", "gen": ["large-gen", 1], "_path_only": True}, "generated"))
     entries.append((shipped_spec("small-linear"), "shipped"))
+    entries.append(({"name": "huge-gen-s0", "gen": ["huge-gen", 0], "_path_only": True, "_path_cap": 12}, "generated"))
+    for sp in scale_specs("quick"):
+        entries += _entries_for(sp)
     # scenarios straight out of the generator (firewall rules as sets, NumPy topology, np.str_ names)
     for seed in (0, 1):
         entries.append(({"name": f"gen5-s{seed}", "genparams": {
@@ -490,6 +529,8 @@ def thorough_family():
         sp["_path_only"] = True
         sp["name"] = n
         entries.append((dict(sp, name=n), "shipped"))
+    for sp in scale_specs("thorough")[5:]:
+        entries += _entries_for(sp)
     for g, seed in (("huge-gen", 0), ("pocp-1-gen", 0), ("medium-gen", 3), ("large-gen", 4)):
         entries.append(({"name": f"{g}-path-s{seed}", "gen": [g, seed], "_path_only": True}, "generated"))
     # 16-host shipped scenarios: breadth-first exploration capped at 1200 states (reported as capped, never
